@@ -68,6 +68,16 @@ class MatAlg:
         self.f_inv = z3.Function('minv', M, M); self.f_T = z3.Function('mT', M, M)
         a, b, c = z3.Consts('ma mb mc', M); r = z3.Real('mr'); s = z3.Real('ms')
         ad, mu, ng, sm = self.f_add, self.f_mul, self.f_neg, self.f_smul
+        self.named = {
+            'add_assoc': (3, lambda a, b, c: ad(ad(a, b), c) == ad(a, ad(b, c))), 'add_comm': (2, lambda a, b: ad(a, b) == ad(b, a)),
+            'add_zero': (1, lambda a: ad(a, self.Zero) == a), 'zero_add': (1, lambda a: ad(self.Zero, a) == a), 'add_neg': (1, lambda a: ad(a, ng(a)) == self.Zero),
+            'neg_add': (1, lambda a: ad(ng(a), a) == self.Zero),
+            'mul_assoc': (3, lambda a, b, c: mu(mu(a, b), c) == mu(a, mu(b, c))), 'ldist': (3, lambda a, b, c: mu(a, ad(b, c)) == ad(mu(a, b), mu(a, c))),
+            'rdist': (3, lambda a, b, c: mu(ad(a, b), c) == ad(mu(a, c), mu(b, c))), 'neg_mul': (2, lambda a, b: mu(ng(a), b) == ng(mu(a, b))),
+            'mul_neg': (2, lambda a, b: mu(a, ng(b)) == ng(mu(a, b))), 'id_mul': (1, lambda a: mu(self.Id, a) == a), 'mul_id': (1, lambda a: mu(a, self.Id) == a),
+            'neg_neg': (1, lambda a: ng(ng(a)) == a), 'neg_dist': (2, lambda a, b: ng(ad(a, b)) == ad(ng(a), ng(b))), 'mul_zero': (1, lambda a: mu(a, self.Zero) == self.Zero),
+        }
+        self.basic = (z3.ForAll([a], ad(a, self.Zero) == a), z3.ForAll([a], ad(self.Zero, a) == a))
         self.axioms = (
             z3.ForAll([a, b, c], ad(ad(a, b), c) == ad(a, ad(b, c))),
             z3.ForAll([a, b], ad(a, b) == ad(b, a)),
@@ -85,6 +95,10 @@ class MatAlg:
             z3.ForAll([a], sm(z3.RealVal(1), a) == a), z3.ForAll([a], sm(z3.RealVal(-1), a) == ng(a)),
             z3.ForAll([a], sm(z3.RealVal(0), a) == self.Zero),
         )
+    def inst(self, name, *terms):
+        """ground instance of a ring axiom (used as a proof hint instead of handing quantified AC axioms to the solver)"""
+        n, f = self.named[name]; assert len(terms) == n, name
+        return f(*terms)
     def lit(self, v):
         if v == 0: return self.Zero
         raise Undecided('scalar literal %r as matrix cell' % (v,))
@@ -93,6 +107,7 @@ class MatAlg:
     def sub(self, a, b): return self.f_add(a, self.f_neg(b))
     def mul(self, a, b): raise Undecided('elementwise * on matrix cells')
     def dot(self, a, b): return self.f_mul(a, b)
+    def outer(self, a, b): return z3.Function('mouter', self.sort, self.sort, self.sort)(a, b)
     def div(self, a, b): raise Undecided('division of matrix cells')
     def neg(self, a): return self.f_neg(a)
     zero = property(lambda s: s.Zero)
@@ -188,19 +203,19 @@ def _strip_expect(t, coef):
 
 
 class Obligation:
-    def __init__(s, name, goal, assume, nsums, kind='vc'):
-        s.name, s.goal, s.assume, s.nsums, s.kind = name, goal, assume, nsums, kind
+    def __init__(s, name, goal, assume, nsums, kind='vc', axioms=()):
+        s.name, s.goal, s.assume, s.nsums, s.kind, s.axioms = name, goal, assume, nsums, kind, tuple(axioms)
 
 
 class State:
     def __init__(s, alg):
         s.alg = alg; s.ARR = z3.ArraySort(I, alg.sort)
         s.heap = {}; s.env = {}; s.assume = []; s.oblig = []; s.reg = SumReg(alg); s.fresh = 0; s.written = set()
-        s.lemma_depth = 1; s.initial = {}
+        s.lemma_depth = 1; s.initial = {}; s.axioms = ()
     def add_oblig(s, name, goal, kind='vc'):
         if z3.is_true(z3.simplify(goal)) if z3.is_expr(goal) else goal is True:
             s.oblig.append(Obligation(name, z3.BoolVal(True), [], 0, kind)); return
-        s.oblig.append(Obligation(name, goal, list(s.assume), len(s.reg.terms), kind))
+        s.oblig.append(Obligation(name, goal, list(s.assume), len(s.reg.terms), kind, s.axioms))
     def new_base(s, length, contents=None, name='h'):
         s.fresh += 1; bid = '%s#%d' % (name, s.fresh)
         s.heap[bid] = (contents if contents is not None else z3.Const(bid + '!0', s.ARR), length)
@@ -442,6 +457,10 @@ class Exec:
             k = ival(idx.t) if isinstance(idx, IntV) else None
             if k is None: raise Undecided('symbolic tuple index')
             return v[k]
+        if isinstance(v, Cell):
+            elts = sl.elts if isinstance(sl, ast.Tuple) else [sl]
+            if all(self._trailing_ok(e) for e in elts): return v        # whole-cell view of a matrix temporary
+            raise Undecided('element access into a matrix cell')
         if isinstance(sl, ast.Tuple):
             for e in sl.elts[1:]:
                 if not self._trailing_ok(e): raise Undecided('DP: non-trivial batch subscript ' + ast.unparse(sl))
@@ -572,6 +591,9 @@ class Exec:
             x, lo, hi = [self.ev(a) for a in n.args[:3]]
             lo_t, hi_t = alg.of_int(lo.t), alg.of_int(hi.t)
             return self.maybe_out(kw, self.map1(x, lambda t: z3.If(t < lo_t, lo_t, z3.If(t > hi_t, hi_t, t))))
+        if fn == 'numpy.shape' and len(n.args) == 1: return ('shape', self.ev(n.args[0]))
+        if fn == 'numpy.outer' and alg.name == 'mat':
+            a, b = self.ev(n.args[0]), self.ev(n.args[1]); return Cell(alg.outer(a.t, b.t))
         if fn == 'numpy.dot' and alg.name == 'mat':
             a, b = self.ev(n.args[0]), self.ev(n.args[1]); return Cell(alg.dot(a.t, b.t))
         if fn == 'numpy.linalg.inv' and alg.name == 'mat':
@@ -721,6 +743,15 @@ class Exec:
         st = self.st; alg = st.alg
         if isinstance(target, ast.Name):
             st.env[target.id] = val; return
+        if isinstance(target, (ast.Tuple, ast.List)) and isinstance(val, tuple) and val and val[0] == 'shape':
+            a = val[1]
+            for k, t in enumerate(target.elts):
+                if not isinstance(t, ast.Name): raise Undecided('shape unpack target')
+                if isinstance(a, (View, Lazy)) and k == 0: st.env[t.id] = IntV(a.length)
+                elif isinstance(a, (View, Lazy)) and k == 1: st.env[t.id] = self.Pval()
+                else:
+                    st.fresh += 1; st.env[t.id] = IntV(z3.Int('dim!%d' % st.fresh))
+            return
         if isinstance(target, (ast.Tuple, ast.List)):
             if not isinstance(val, (tuple, list)) or len(val) != len(target.elts): raise Undecided('tuple unpack')
             for t, v in zip(target.elts, val): self.store(t, v)
@@ -731,6 +762,11 @@ class Exec:
             raise Undecided('attribute store')
         if isinstance(target, ast.Subscript):
             base = self.ev(target.value)
+            if isinstance(base, Cell) and isinstance(target.value, ast.Name):
+                elts = target.slice.elts if isinstance(target.slice, ast.Tuple) else [target.slice]
+                if all(self._trailing_ok(e) for e in elts) and is_scalar(val):
+                    st.env[target.value.id] = Cell(val.t if isinstance(val, Cell) else alg.of_int(val.t)); return
+                raise Undecided('partial store into a matrix cell')
             if not isinstance(base, View): raise Undecided('store into non-array')
             loc = self.subscript(base, target.slice)
             if isinstance(loc, Cell):
@@ -855,11 +891,13 @@ class Exec:
             changed = [nm for nm in saved[1] if nm != var and env_after.get(nm) is not saved[1][nm]]
             st.heap, st.env = saved[0], saved[1]; del st.oblig[saved[2]:]; st.assume = saved[3]; st.written = saved[4]
             st.reg.n = saved[5]; st.reg.terms = saved[6]; self.loopno = saved[7]; self.branch_conds = saved[8]
-        for nm in changed:
-            if isinstance(saved[1][nm], (IntV, Cell)): raise Undecided('scalar local %s is loop-carried' % nm)
+        carried = [nm for nm in changed if isinstance(saved[1][nm], (IntV, Cell))]
         base_assume = list(st.assume)
         v = z3.Int('%s!%d' % (var, k))
         for bb in wr: st.heap[bb] = (z3.Const('%s!loop%d' % (bb, k), st.ARR), st.heap[bb][1])
+        for nm in carried:
+            old = saved[1][nm]
+            st.env[nm] = IntV(z3.Int('%s!loop%d' % (nm, k))) if isinstance(old, IntV) else Cell(z3.Const('%s!loop%d' % (nm, k), old.t.sort()))
         st.env[var] = IntV(v); st.assume = base_assume + [lo <= v, v < hi]
         st.assume.append(inv(self, v, False))
         if ghost: st.assume += list(ghost(self, v))
@@ -869,6 +907,9 @@ class Exec:
         g1 = inv(self, nxt(v), True)
         st.add_oblig('loop%d invariant preserved' % k, g1)
         for bb in wr: st.heap[bb] = (z3.Const('%s!exit%d' % (bb, k), st.ARR), st.heap[bb][1])
+        for nm in carried:
+            old = saved[1][nm]
+            st.env[nm] = IntV(z3.Int('%s!exit%d' % (nm, k))) if isinstance(old, IntV) else Cell(z3.Const('%s!exit%d' % (nm, k), old.t.sort()))
         ex = z3.If(nonempty, last_next, first)
         st.env[var] = IntV(z3.simplify(z3.If(nonempty, last_next - (1 if not desc else -1), first)))
         st.assume = base_assume + [inv(self, ex, False)]
@@ -958,7 +999,7 @@ def _check(assumptions, goal, timeout_ms, seed=0):
 PAIR_TIMEOUT_MS = 400
 
 
-def sum_facts(ob, reg, alg, depth=1):
+def sum_facts(ob, reg, alg, depth=1, pair_timeout_ms=None):
     """Stage 1 of the Sum tactic: peel/empty lemma instances for the records occurring in the obligation, and the
     equalities between records whose summands agree under a shift or a reversal -- each established by its own small
     query under the obligation's assumptions (the skolemised form of the congruence lemma)."""
@@ -977,7 +1018,7 @@ def sum_facts(ob, reg, alg, depth=1):
         allrec += new; layer = new
     for (c, lo, hi, f) in layer: out.append(z3.Implies(hi < lo, c == alg.zero))
     reg.n = n0
-    ctx = list(ob.assume) + list(alg.axioms)
+    ctx = list(ob.assume)
     lin = z3.Solver(); lin.set('timeout', 1000); lin.add(*[a for a in ob.assume if not _has_quant(a)])
     w = z3.Int('w!cg')
     for (a, b) in itertools.combinations(allrec, 2):
@@ -988,19 +1029,28 @@ def sum_facts(ob, reg, alg, depth=1):
         for img in (w + lob - loa, hib - (w - loa)):
             try: prem = z3.Implies(rng, fa(w) == fb(img))
             except Undecided: continue
-            v, _ = _check(ctx, prem, PAIR_TIMEOUT_MS)
+            v, _ = _check(ctx, prem, pair_timeout_ms or PAIR_TIMEOUT_MS)
             if v == 'unsat': out.append(ca == cb); break
     return out
 
 
-def discharge(ob, reg, alg, timeout_ms=20000, extra=(), depth=1, seed=0):
+def discharge(ob, reg, alg, timeout_ms=20000, extra=(), depth=1, seed=0, pair_timeout_ms=None):
     """returns (verdict, seconds, solver_info): verdict in unsat / sat / unknown"""
     if z3.is_true(ob.goal): return 'unsat', 0.0, 'trivial'
     t = time.time()
-    facts = sum_facts(ob, reg, alg, depth) if ob.nsums else []
-    ctx = list(ob.assume) + list(alg.axioms) + list(extra) + facts
+    base = list(ob.assume) + list(ob.axioms) + list(extra)
+    goals = _split_goal(ob.goal)
+    # fast path: many obligations (index bounds, frames, entry conditions) need no Sum reasoning at all
+    pending = []
+    for g in goals:
+        v, w = _check(base, g, 1500 if ob.nsums else timeout_ms, seed)
+        if v != 'unsat': pending.append((g, v, w))
+    if not pending: return 'unsat', time.time() - t, ''
+    if not ob.nsums: return pending[0][1], time.time() - t, pending[0][2]
+    facts = sum_facts(ob, reg, alg, depth, pair_timeout_ms)
+    ctx = base + facts
     verdict, why = 'unsat', ''
-    for g in _split_goal(ob.goal):
+    for (g, _, _) in pending:
         v, w = _check(ctx, g, timeout_ms, seed)
         if v != 'unsat':
             verdict, why = v, w
